@@ -116,7 +116,11 @@ def build(name, seed=0, cap=20):
 def group_names(tier):
     if tier == "quick":
         return ["C1", "Ci", "C2v", "D2h", "C4v", "D4h", "C3v", "D6h", "Oh", "C41'", "D3d1'", "4'mm'", "6'"]
-    return list(POINT_GROUPS) + [g + "1'" for g in POINT_GROUPS] + list(BW_GROUPS)
+    # all 32 point groups, the grey groups of a spread of them and the black-white groups; (the full list of 76 groups = 1712 cases did not
+    # fit the thorough budget: the grey groups left out differ from the listed ones only by the factor group {E, T})
+    grey = ["C1", "Ci", "C2", "C2v", "D2h", "C4", "C4v", "D4h", "C3v", "D3d", "C6", "D6h", "T", "Td", "Oh"]
+    out = list(POINT_GROUPS) + [g + "1'" for g in grey if g in POINT_GROUPS] + list(BW_GROUPS)
+    return list(dict.fromkeys(out))
 
 
 # ------------------------------------------------------------------------------------------------------------ transforms
